@@ -17,6 +17,7 @@ import Sourcer.Proofs.FuelMono
 import Sourcer.Proofs.Shift
 import Sourcer.Proofs.Rename
 import Sourcer.Proofs.LengthenSkip
+import Sourcer.Proofs.Bridge
 import Sourcer.Proofs.EnvSubst
 /-
   Property theorems (statements only; proofs are one-liners over Sourcer/Proofs/*).
@@ -448,15 +449,32 @@ theorem C04_reindexing (P : Program) (inp inp' : List Nat) (φ : Nat → Nat)
   peg_reindex P inp inp' φ okS okR okB ign hst hP fuel e q he
 
 namespace C04Example
-/-- `ignore / +/` (regex 0 matches a run of blanks), `start = "a" "b"` with skipping after each literal;
-    rule 0 is the ignore rule, rule 1 the start rule -/
-def blanks (inp : List Nat) (p : Nat) : Option Nat :=
-  let run := ((inp.drop p).takeWhile (· == 32)).length
-  if run = 0 then none else some (p + run)
+/-- `ignore / +/` (regex 0 is `blanksEnd`: the end of a run of blanks), `start = "a" "b"` with skipping
+    after each literal; rule 0 is the ignore rule, rule 1 the start rule -/
 def prog : Program :=
   { rules := [.skip [.regex 0 false], .seq [.str [97] true, .str [98] true]], ignored := some 0,
-    matcher := fun _ inp p => blanks inp p, bytesMode := false }
+    matcher := fun _ inp p => blanksEnd inp p, bytesMode := false }
 end C04Example
+
+/-- non-vacuity of ALL hypotheses of `C04_lengthening` at once: for the program `ignore / +/`,
+    `start = "a" "b"`, every input, every blank in it and every amount of fuel, doubling that blank
+    gives the corresponding outcome. -/
+theorem C04_lengthening_instance (pre post : List Nat) (fuel q : Nat) :
+    peg C04Example.prog (dbl pre 32 post) fuel (.ref 1) (ins pre.length q) =
+      (peg C04Example.prog (one pre 32 post) fuel (.ref 1) q).map (mapRes (ins pre.length)) := by
+  refine C04_lengthening C04Example.prog pre 32 post (fun _ => false) 0 [.regex 0 false]
+    (Or.inr rfl) rfl ?_ (fun rx h => by simp at h) ?_ fuel (.ref 1) q (by decide)
+  · intro x hx
+    simp only [List.mem_singleton] at hx
+    exact ⟨0, hx, fun p => blanksEnd_dbl pre post p⟩
+  · intro k body hk hb
+    match k, hk, hb with
+    | 0, hk, _ => exact absurd rfl hk
+    | 1, _, hb =>
+      simp [C04Example.prog] at hb
+      subst hb
+      decide
+    | k + 2, _, hb => simp [C04Example.prog] at hb
 
 -- non-vacuity of the conclusion: `a␣b` and `a␣␣b` (the blank at index 1 doubled) give the same value,
 -- end position 3 ↦ 4
@@ -1308,5 +1326,30 @@ example :
     peg (renameProg c f exP) [97] 5 (renameExpr c f (.cls "K" [.str [97] false] [some "first"])) 0
       = some (.ok (.obj "len" [("slice", .str [97])] (some (0, 1))) 1) := by
   refine ⟨⟨by decide, by decide, by decide, by decide, by decide, by decide⟩, by rfl⟩
+
+/-! ## the two specification layers agree where they overlap -/
+
+open X in
+/-- The lexical specification of the names layer (C05/C06) and the core specification (C01-C04, C08,
+    C10) were written separately.  On the expressions both can write - literals, sequences, ordered
+    choice, options, greedy repetition, references to rules without parameters - every outcome of
+    the first is the outcome of the second (for every sufficiently larger amount of fuel, hence, by
+    `C01_meaning_independent_of_fuel`, the outcome). -/
+theorem C05_specification_layers_agree (XP : XProgram) (CP : Program) (inp : List Nat) (hE : Embedded XP CP)
+    (n m : Nat) (hm : n + inp.length + 1 ≤ m) (e : XExpr) (e' : Expr) (ρ : SEnv) (p : Nat) (r : Res)
+    (he : embed e = some e') (h : xpeg XP inp n e ρ p = some r) : peg CP inp m e' p = some r :=
+  bridge XP CP inp hE n m hm e e' ρ p r he h
+
+-- non-vacuity: `start = ["a", ("b" | "ab")*]` in both layers on `abab`
+open X in
+example :
+    let xp : XProgram := { rules := [.seq [.lit [97], .star (.choice [.lit [98], .lit [97, 98]])]], templates := [],
+                           pyf := fun _ _ => .none, app := fun _ v => v, truthy := fun _ => true }
+    let cp : Program := { rules := [.seq [.str [97] false, .list (.choice [.str [98] false, .str [97, 98] false]) 0 none]],
+                          ignored := none, matcher := fun _ _ _ => none, bytesMode := false }
+    embed (.ref 0) = some (.ref 0) ∧
+    xpeg xp [97, 98, 97, 98] 6 (.ref 0) [] 0 = some (.ok (.list [.str [97], .list [.str [98], .str [97, 98]]]) 4) ∧
+    peg cp [97, 98, 97, 98] 11 (.ref 0) 0 = some (.ok (.list [.str [97], .list [.str [98], .str [97, 98]]]) 4) := by
+  refine ⟨by rfl, by rfl, by rfl⟩
 
 end Sourcer
